@@ -25,10 +25,10 @@ import seqcheck
 
 SPEC = {
     "prop": "C05",
-    "lean_targets": ["InfernoVerif.Props.C05", "InfernoVerif.Props.C05Glue", "InfernoVerif.Gen.Dispatch"],
-    "translate": ["ConvSites"],
+    "lean_targets": ["InfernoVerif.Props.C05", "InfernoVerif.Props.C05Glue", "InfernoVerif.Props.C05GlueProg", "InfernoVerif.Gen.Dispatch"],
+    "translate": ["ConvSites", "ConnProg"],
     "driver_targets": ["InfernoVerif.Model.Conn", "InfernoVerif.Drv.Proto", "InfernoVerif.Gen.Dispatch"],
-    "prop_files": ["InfernoVerif/Props/C05.lean", "InfernoVerif/Props/C05Glue.lean"],
+    "prop_files": ["InfernoVerif/Props/C05.lean", "InfernoVerif/Props/C05Glue.lean", "InfernoVerif/Props/C05GlueProg.lean"],
     "lemma_files": ["InfernoVerif/Lemmas/Conn.lean"],
     "model_files": ["InfernoVerif/Model/Conn.lean"],
     "driver": "drivers/C05.lean",
